@@ -189,7 +189,7 @@ class Ctx:
         # the unchanged tree lets at most a few (known slow) cases run into their wall-clock bound (<= 20 s in
         # total in the quick tier); when the bounds that fired add up to minutes the implementation has
         # stopped returning on ordinary inputs: stop exploring instead of waiting for every single bound
-        if TIMEOUTS["seconds"] > (180 if self.tier == "quick" else 14400) and self.deadline is None:
+        if TIMEOUTS["seconds"] > (180 if self.tier == "quick" else 1800) and self.deadline is None:
             if not self.extra.get("stopped_on_time_limits"):
                 self.extra["stopped_on_time_limits"] = True
                 raise StopRun()
